@@ -20,27 +20,31 @@
    the rely relation (what other threads may do to the facts this thread uses), so that a thread's assertion is stable
    wherever the thread is stopped — also when `ladvance` runs out of fuel in the middle of local code. *)
 From Coq Require Import List Arith NArith ZArith Bool Lia.
-From EV Require Import CLModel CLHeap CLOps CLRefine CLConc CLConcProofs.
+From EV Require Import CLModel CLHeap CLOps CLRefine CLConc CLConcProofs CLTrav CLConcTrav.
 From EV.gen Require GenCL.
 Import ListNotations.
 Local Open Scope nat_scope.
 
-Definition eth (e : nat * sec * bool) : nat := fst (fst e).
-Definition esec (e : nat * sec * bool) : sec := snd (fst e).
-Definition eres (e : nat * sec * bool) : bool := snd e.
-
-(* the list after the recorded sections (newest first), and the results they had *)
-Fixpoint replay (l : list (nat * sec * bool)) : group :=
-  match l with [] => empty_group | e :: r => fst (sec_step (replay r) (esec e)) end.
-
-Fixpoint results_ok (l : list (nat * sec * bool)) : Prop :=
-  match l with [] => True | e :: r => snd (sec_step (replay r) (esec e)) = eres e /\ results_ok r end.
-
 Definition wrapped (s : lshared) : Prop := exists u, In (LaInc u 0%N) (llog s).
+
+(* what the record of finished traversals says: a traversal that read head when p0 sections had been executed and ended
+   when p1 had been executed visited no node twice and visited every node that was in the list at p0 and was not removed by
+   one of the sections p0+1 .. p1 *)
+Definition GT (s : lshared) : Prop :=
+  forall t p0 p1 vis, In (t, p0, p1, vis) (ltravs s) ->
+    p0 <= p1 /\ p1 <= length (lsecs s) /\
+    (wrapped s \/
+     (NoDup vis /\
+      forall z, In z (ids_rec (old_rec (lsecs s) p0)) ->
+                ~ In z (gone_rec (new_rec (old_rec (lsecs s) p1) p0)) -> In z vis)).
 
 Definition GI (s : lshared) : Prop :=
   lgrp s = replay (lsecs s) /\ results_ok (lsecs s) /\
-  (wrapped s \/ Forall (fun e => sec_counter_ok (esec e)) (lsecs s)).
+  (wrapped s \/ rec_ok (lsecs s)) /\
+  lbad s = false /\
+  (lcc s < W32)%N /\
+  (wrapped s \/ ctrs_le (lcc s) (lgrp s) (ids_rec (lsecs s))) /\
+  GT s.
 
 (* the sections of one thread, newest first; the results one thread has reported, newest first *)
 Definition tsecs (t : nat) (s : lshared) : list (nat * sec * bool) := filter (fun e => Nat.eqb (eth e) t) (lsecs s).
@@ -48,17 +52,77 @@ Definition tsecs (t : nat) (s : lshared) : list (nat * sec * bool) := filter (fu
 Definition rl (t : nat) (s : lshared) : list bool :=
   flat_map (fun a => match a with LaRes u b => if Nat.eqb u t then [b] else [] | _ => [] end) (llog s).
 
-(* what the other threads may do to what thread t relies on *)
+(* what the other threads may do to what thread t relies on: they leave t's sections and reports alone, the counter
+   never un-wraps and (unless it wraps) never decreases, the record of sections only grows, the global invariant is kept,
+   and they neither give the mutex to t nor take it from t *)
+Definition Rely0 (t : nat) (s s1 : lshared) : Prop :=
+  tsecs t s1 = tsecs t s /\ rl t s1 = rl t s /\ (wrapped s -> wrapped s1) /\
+  (GI s -> GI s1) /\ (exists L, lsecs s1 = L ++ lsecs s) /\ (wrapped s1 \/ (lcc s <= lcc s1)%N).
+
 Definition Rely (t : nat) (s s1 : lshared) : Prop :=
-  tsecs t s1 = tsecs t s /\ rl t s1 = rl t s /\ (wrapped s -> wrapped s1).
+  Rely0 t s s1 /\ (lown s1 = Some t <-> lown s = Some t).
+
+Lemma Rely0_refl t s : Rely0 t s s.
+Proof.
+  split; [reflexivity|]. split; [reflexivity|]. split; [auto|]. split; [auto|]. split; [exists []; reflexivity|right; lia].
+Qed.
+
+Lemma Rely0_trans t a b c : Rely0 t a b -> Rely0 t b c -> Rely0 t a c.
+Proof.
+  intros [A1 [A2 [A3 [A4 [[L1 A5] A6]]]]] [B1 [B2 [B3 [B4 [[L2 B5] B6]]]]].
+  split; [congruence|]. split; [congruence|]. split; [auto|]. split; [auto|]. split.
+  - exists (L2 ++ L1). rewrite B5, A5, app_assoc. reflexivity.
+  - destruct B6 as [B6|B6]; [left; exact B6|]. destruct A6 as [A6|A6]; [left; auto|right; lia].
+Qed.
 
 Lemma Rely_refl t s : Rely t s s.
-Proof. repeat split; auto. Qed.
+Proof. split; [apply Rely0_refl|tauto]. Qed.
 
 Lemma Rely_trans t a b c : Rely t a b -> Rely t b c -> Rely t a c.
 Proof.
-  intros [A1 [A2 A3]] [B1 [B2 B3]]. split; [congruence|]. split; [congruence|auto].
+  intros [A1 A2] [B1 B2]. split; [eapply Rely0_trans; eauto|tauto].
 Qed.
+
+(* ---------- a traversal in progress ---------- *)
+(* the state CLTrav's invariant is about, read off the record and the traversing thread's locals *)
+Definition tstate (s : lshared) (l : llocals) : tst := tst_of (lsecs s) l.
+
+(* from the moment the traversal has captured the counter *)
+Definition TRinv (s : lshared) (l : llocals) : Prop :=
+  GI s /\ lp0 l <= length (lsecs s) /\
+  (wrapped s \/ TInv (lcapt l) (ids_rec (old_rec (lsecs s) (lp0 l))) (tstate s l)).
+
+(* between the read of head and the capture of the counter: for every value the counter may have by then *)
+Definition TRpre (s : lshared) (l : llocals) : Prop :=
+  GI s /\ lp0 l <= length (lsecs s) /\
+  (wrapped s \/ forall capt, (lcc s <= capt)%N -> TInv capt (ids_rec (old_rec (lsecs s) (lp0 l))) (tstate s l)).
+
+Lemma rec_ok_app_l (L R : list (nat * sec * bool)) : rec_ok (L ++ R) -> rec_ok L.
+Proof. unfold rec_ok. intros H. apply Forall_app in H. tauto. Qed.
+
+Lemma TRinv_rely t s s1 l : TRinv s l -> Rely0 t s s1 -> TRinv s1 l.
+Proof.
+  intros [G [Hp HT]] [_ [_ [HW [HG [[L HL] _]]]]]. specialize (HG G).
+  split; [exact HG|]. split; [rewrite HL, app_length; lia|].
+  destruct HT as [HT|HT]; [left; auto|].
+  destruct HG as [_ [Hr [[W|Hk] _]]]; [left; exact W|right].
+  unfold tstate. rewrite HL in *. rewrite (old_rec_app L (lsecs s) (lp0 l) Hp).
+  apply TInv_more; auto. eapply rec_ok_app_l; eauto.
+Qed.
+
+Lemma TRpre_rely t s s1 l : TRpre s l -> Rely0 t s s1 -> TRpre s1 l.
+Proof.
+  intros [G [Hp HT]] [_ [_ [HW [HG [[L HL] HC]]]]]. specialize (HG G).
+  split; [exact HG|]. split; [rewrite HL, app_length; lia|].
+  destruct HT as [HT|HT]; [left; auto|].
+  destruct HC as [W|HC]; [left; exact W|].
+  destruct HG as [_ [Hr [[W|Hk] _]]]; [left; exact W|right].
+  intros capt Hc. unfold tstate. rewrite HL in *. rewrite (old_rec_app L (lsecs s) (lp0 l) Hp).
+  apply TInv_more; auto; [eapply rec_ok_app_l; eauto|]. apply HT. lia.
+Qed.
+
+(* the loop invariant of doForEachIf *)
+Definition LoopI (s : lshared) (l : llocals) : Prop := TRinv s l /\ lph l = false.
 
 (* what a step of thread t must guarantee: the global invariant, and the rely of everybody else *)
 Definition Guar (t : nat) (s s' : lshared) : Prop :=
@@ -81,8 +145,8 @@ Definition veff (t : nat) (i : linstr) (s : lshared) (l : llocals) : lshared * l
   | JLock => (ls_own (ls_log s (LaLock t)) (Some t), l)
   | JUnlock => (ls_own (ls_log s (LaUnlock t)) None, l)
   | JInc => let v := ((lcc s + 1) mod W32)%N in
-            (ls_log (ls_cc s v) (LaInc t v), mkLL (ln l) v (lbefore l) (lcur l) (lcapt l) (lresb l))
-  | JLoad => (ls_log s (LaLoad t (lcc s)), mkLL (ln l) (lk l) (lbefore l) (lcur l) (lcc s) (lresb l))
+            (ls_log (ls_cc s v) (LaInc t v), ll_k l v)
+  | JLoad => (ls_log s (LaLoad t (lcc s)), ll_capt l (lcc s))
   | _ => (s, l)
   end.
 
@@ -91,8 +155,9 @@ Variable t : nat.
 
 Fixpoint wci (i : linstr) (K : lshared -> llocals -> Prop) (s : lshared) (l : llocals) {struct i} : Prop :=
   match i with
-  | JLocal _ f =>
-      forall s1, Rely t s s1 -> Guar t s1 (fst (f t s1 l)) /\ K (fst (f t s1 l)) (snd (f t s1 l))
+  | JLocal b f =>
+      forall s1, Rely t s s1 -> GI s1 ->
+                 (b = true -> lown s1 = Some t) /\ Guar t s1 (fst (f t s1 l)) /\ K (fst (f t s1 l)) (snd (f t s1 l))
   | JIf c a b =>
       forall s1, Rely t s s1 ->
         (c s1 l = true ->
@@ -101,9 +166,11 @@ Fixpoint wci (i : linstr) (K : lshared -> llocals -> Prop) (s : lshared) (l : ll
         (c s1 l = false ->
          (fix wl (cd : list linstr) (K : lshared -> llocals -> Prop) (s : lshared) (l : llocals) {struct cd} : Prop :=
             match cd with [] => K s l | j :: r => wci j (wl r K) s l end) b K s1 l)
-  | JLoop => forall s1 l1, Rely t s s1 -> K s1 l1
+  | JLoop => lown s <> Some t /\ LoopI s l /\ forall s1 l1, Rely t s s1 -> LoopI s1 l1 -> lcur l1 = None -> K s1 l1
   | JRes => forall s1, Rely t s s1 -> K (ls_log s1 (LaRes t (lresb l))) l
   | JDone => forall s1, Rely t s s1 -> K (ls_log s1 (LaDone t)) l
+  | JLock => forall s1, Rely t s s1 -> lown s1 <> Some t /\ K (fst (veff t i s1 l)) (snd (veff t i s1 l))
+  | JUnlock => forall s1, Rely t s s1 -> lown s1 = Some t /\ K (fst (veff t i s1 l)) (snd (veff t i s1 l))
   | _ => forall s1, Rely t s s1 -> K (fst (veff t i s1 l)) (snd (veff t i s1 l))
   end.
 
@@ -149,7 +216,9 @@ Proof.
   - intros K K' s l HK H. destruct i as [| | | | |b f|c x y| | |]; try contradiction; cbn [wci] in *.
     all: try (intros s1 HR; apply HK; apply H; exact HR).
     + intros s1 HR. destruct (H s1 HR) as [H1 H3]. split; [exact H1|apply HK; exact H3].
-    + intros s1 l1 HR. apply HK. apply H. exact HR.
+    + intros s1 HR. destruct (H s1 HR) as [H1 H3]. split; [exact H1|apply HK; exact H3].
+    + intros s1 HR HG. destruct (H s1 HR HG) as [H0 [H1 H3]]. split; [exact H0|]. split; [exact H1|apply HK; exact H3].
+    + destruct H as [H0 [HL H]]. split; [exact H0|]. split; [exact HL|]. intros s1 l1 HR A B. apply HK. apply H; assumption.
   - intros K K' s l HK H. rewrite wci_if in *. intros s1 HR. destruct (H s1 HR) as [H1 H2]. split; intros Hc.
     + eapply wcl_mono_F; eauto.
     + eapply wcl_mono_F; eauto.
@@ -169,7 +238,11 @@ Lemma wci_stable i (K : lshared -> llocals -> Prop) s s1 l : Rely t s s1 -> wci 
 Proof.
   intros HR H. destruct i as [| | | | |b f|c x y| | |]; cbn [wci] in *.
   all: try (intros s2 HR2; apply H; eapply Rely_trans; eauto).
-  - intros s2 l2 HR2. apply H. eapply Rely_trans; eauto.
+  - destruct H as [H0 [[HL HP] H]]. split; [|split; [split|]].
+    + intro X. apply H0. apply (proj2 HR). exact X.
+    + eapply TRinv_rely; [exact HL|exact (proj1 HR)].
+    + exact HP.
+    + intros s2 l2 HR2. apply H. eapply Rely_trans; eauto.
 Qed.
 
 Lemma wcl_stable cd (K : lshared -> llocals -> Prop) s s1 l :
@@ -186,54 +259,107 @@ End CALC.
 Lemma wrapped_log s a : wrapped s -> wrapped (ls_log s a).
 Proof. intros [u H]. exists u. right. exact H. Qed.
 
-Lemma GI_eq s s' : lgrp s' = lgrp s -> lsecs s' = lsecs s -> (wrapped s -> wrapped s') -> GI s -> GI s'.
+Lemma GI_eq s s' :
+  lgrp s' = lgrp s -> lsecs s' = lsecs s -> lbad s' = lbad s -> lcc s' = lcc s -> ltravs s' = ltravs s ->
+  (wrapped s -> wrapped s') -> GI s -> GI s'.
 Proof.
-  intros A B C [G1 [G2 G3]]. unfold GI. rewrite A, B. split; [exact G1|]. split; [exact G2|].
-  destruct G3 as [W|F]; [left; auto|right; exact F].
+  intros A B D E F C [G1 [G2 [G3 [G4 [G5 [G6 G7]]]]]]. unfold GI, GT. rewrite A, B, D, E, F.
+  split; [exact G1|]. split; [exact G2|]. split; [destruct G3; auto|]. split; [exact G4|]. split; [exact G5|].
+  split; [destruct G6; auto|].
+  intros t p0 p1 vis Hin. destruct (G7 t p0 p1 vis Hin) as [X [Y Z]]. split; [exact X|]. split; [exact Y|]. destruct Z; auto.
 Qed.
 
-(* a step that touches neither the list nor the section record, and logs nothing but `a` *)
-Lemma log_guar t s a :
-  (forall u b, a = LaRes u b -> u = t) -> Guar t s (ls_log s a).
-Proof.
-  intros Ha. split.
-  - apply GI_eq; try reflexivity. apply wrapped_log.
-  - intros u Hu. split; [reflexivity|]. split; [|apply wrapped_log].
-    unfold rl. cbn [llog ls_log flat_map]. destruct a as [| | | | | |u' b| |]; try reflexivity.
-    rewrite (Ha u' b eq_refl). destruct (Nat.eqb_spec t u); [subst; contradiction|reflexivity].
-Qed.
+(* a step that touches neither the list nor the section record nor the mutex, and logs nothing but `a` *)
+Lemma log_GI s a : GI s -> GI (ls_log s a).
+Proof. apply GI_eq; try reflexivity. apply wrapped_log. Qed.
 
-Lemma log_rely t s a : (forall b, a <> LaRes t b) -> Rely t s (ls_log s a).
+Lemma log_rely0 t s a : (forall b, a <> LaRes t b) -> Rely0 t s (ls_log s a).
 Proof.
-  intros Ha. split; [reflexivity|]. split; [|apply wrapped_log].
+  intros Ha. split; [reflexivity|]. split; [|split; [apply wrapped_log|split; [apply log_GI|split; [exists []; reflexivity|right; cbn [lcc ls_log]; lia]]]].
   unfold rl. cbn [llog ls_log flat_map]. destruct a as [| | | | | |u' b| |]; try reflexivity.
   destruct (Nat.eqb_spec u' t); [subst; exfalso; eapply Ha; reflexivity|reflexivity].
 Qed.
 
-Lemma veff_guar t i s l : vis i = true -> Guar t s (fst (veff t i s l)) /\ Rely t s (fst (veff t i s l)).
+Lemma log_rely t s a : (forall b, a <> LaRes t b) -> Rely t s (ls_log s a).
+Proof. intros Ha. split; [apply log_rely0; exact Ha|reflexivity]. Qed.
+
+Lemma log_guar t s a :
+  (forall u b, a = LaRes u b -> u = t) -> Guar t s (ls_log s a).
 Proof.
-  intros Hv. destruct i; try discriminate; cbn [veff fst].
+  intros Ha. split.
+  - apply log_GI.
+  - intros u Hu. apply log_rely. intros b E. apply Hu. eapply Ha. exact E.
+Qed.
+
+Lemma own_GI s a o : GI s -> GI (ls_own (ls_log s a) o).
+Proof. apply GI_eq; try reflexivity. intros [u H]. exists u. right. exact H. Qed.
+
+Lemma own_rely0 t s a o : (forall b, a <> LaRes t b) -> Rely0 t s (ls_own (ls_log s a) o).
+Proof.
+  intros Ha. destruct (log_rely0 t s a Ha) as [B1 [B2 [B3 [_ [B5 B6]]]]].
+  split; [exact B1|]. split; [exact B2|]. split; [exact B3|]. split; [apply own_GI|]. split; [exact B5|exact B6].
+Qed.
+
+(* the increment of the counter *)
+Lemma inc_GI t s : GI s -> GI (fst (veff t JInc s ll0)).
+Proof.
+  intros [G1 [G2 [G3 [G4 [G5 [G6 G7]]]]]]. cbn [veff fst].
+  set (v := ((lcc s + 1) mod W32)%N).
+  assert (W : wrapped s -> wrapped (ls_log (ls_cc s v) (LaInc t v))) by (intros [u H]; exists u; right; exact H).
+  assert (Hv : (v < W32)%N) by (apply N.mod_lt; unfold W32; discriminate).
+  destruct (N.eq_dec (lcc s + 1) W32) as [E|E].
+  - (* the counter wraps *)
+    assert (W0 : wrapped (ls_log (ls_cc s v) (LaInc t v))).
+    { exists t. left. unfold v. rewrite E, N.mod_same by (unfold W32; discriminate). reflexivity. }
+    unfold GI, GT. cbn [lgrp lsecs lbad lcc ltravs ls_log ls_cc].
+    split; [exact G1|]. split; [exact G2|]. split; [left; exact W0|]. split; [exact G4|]. split; [exact Hv|]. split; [left; exact W0|].
+    intros u p0 p1 vis Hin. destruct (G7 u p0 p1 vis Hin) as [X [Y _]]. split; [exact X|]. split; [exact Y|left; exact W0].
+  - assert (Ev : v = (lcc s + 1)%N) by (unfold v; apply N.mod_small; lia).
+    unfold GI, GT. cbn [lgrp lsecs lbad lcc ltravs ls_log ls_cc].
+    split; [exact G1|]. split; [exact G2|]. split; [destruct G3; auto|]. split; [exact G4|]. split; [exact Hv|]. split.
+    + destruct G6 as [G6|G6]; [left; auto|right]. eapply ctrs_le_mono; [|exact G6]. lia.
+    + intros u p0 p1 vis Hin. destruct (G7 u p0 p1 vis Hin) as [X [Y Z]]. split; [exact X|]. split; [exact Y|]. destruct Z; auto.
+Qed.
+
+Lemma inc_rely0 t u s : GI s -> Rely0 u s (fst (veff t JInc s ll0)).
+Proof.
+  intros G. cbn [veff fst]. set (v := ((lcc s + 1) mod W32)%N).
+  assert (W : wrapped s -> wrapped (ls_log (ls_cc s v) (LaInc t v))) by (intros [x H]; exists x; right; exact H).
+  split; [reflexivity|]. split; [reflexivity|]. split; [exact W|]. split; [intros _; exact (inc_GI t s G)|].
+  split; [exists []; reflexivity|].
+  cbn [lcc ls_log ls_cc]. destruct (N.eq_dec (lcc s + 1) W32) as [E|E].
+  - left. exists t. left. unfold v. rewrite E, N.mod_same by (unfold W32; discriminate). reflexivity.
+  - right. destruct G as [_ [_ [_ [_ [G5 _]]]]]. unfold v. rewrite N.mod_small; lia.
+Qed.
+
+(* the visible actions: taking the mutex (it was free: the scheduler runs a thread in front of JLock only then), giving
+   it back (by its owner), the atomic operations *)
+Lemma veff_guar t i s l :
+  vis i = true -> GI s -> (i = JLock -> lown s = None) -> (i = JUnlock -> lown s = Some t) -> Guar t s (fst (veff t i s l)).
+Proof.
+  intros Hv HG HL HU. destruct i; try discriminate; cbn [veff fst].
   - (* lock *)
-    split.
-    + destruct (log_guar t s (LaLock t)) as [A B]; [intros; discriminate|]. split.
-      * intros G. apply (GI_eq (ls_log s (LaLock t))); try reflexivity; auto.
-      * intros u Hu. destruct (B u Hu) as [B1 [B2 B3]]. split; [exact B1|split; [exact B2|exact B3]].
-    + destruct (log_rely t s (LaLock t)) as [B1 [B2 B3]]; [intros; discriminate|]. split; [exact B1|split; [exact B2|exact B3]].
-  - split.
-    + destruct (log_guar t s (LaUnlock t)) as [A B]; [intros; discriminate|]. split.
-      * intros G. apply (GI_eq (ls_log s (LaUnlock t))); try reflexivity; auto.
-      * intros u Hu. destruct (B u Hu) as [B1 [B2 B3]]. split; [exact B1|split; [exact B2|exact B3]].
-    + destruct (log_rely t s (LaUnlock t)) as [B1 [B2 B3]]; [intros; discriminate|]. split; [exact B1|split; [exact B2|exact B3]].
+    specialize (HL eq_refl). split; [apply own_GI|].
+    intros u Hu. split; [apply own_rely0; intros; discriminate|].
+    cbn [lown ls_own]. rewrite HL. split; intros X; [inversion X; subst; contradiction|discriminate].
+  - (* unlock *)
+    specialize (HU eq_refl). split; [apply own_GI|].
+    intros u Hu. split; [apply own_rely0; intros; discriminate|].
+    cbn [lown ls_own]. rewrite HU. split; intros X; [discriminate|inversion X; subst; contradiction].
   - (* inc *)
-    set (v := ((lcc s + 1) mod W32)%N).
-    assert (W : wrapped s -> wrapped (ls_log (ls_cc s v) (LaInc t v))) by (intros [u H]; exists u; right; exact H).
-    split.
-    + split.
-      * apply GI_eq; try reflexivity. exact W.
-      * intros u Hu. split; [reflexivity|]. split; [reflexivity|exact W].
-    + split; [reflexivity|]. split; [reflexivity|exact W].
-  - split; [apply log_guar; intros; discriminate|apply log_rely; intros; discriminate].
-  - split; [apply Guar_refl|apply Rely_refl].
+    split; [intros _; exact (inc_GI t s HG)|].
+    intros u Hu. split; [exact (inc_rely0 t u s HG)|reflexivity].
+  - apply log_guar; intros; discriminate.
+  - apply Guar_refl.
+Qed.
+
+(* thread t's own atomic operations, as seen by thread t *)
+Lemma veff_rely t i s l : GI s -> i = JInc \/ i = JLoad \/ i = JStart -> Rely t s (fst (veff t i s l)).
+Proof.
+  intros HG [E|[E|E]]; subst i; cbn [veff fst].
+  - split; [exact (inc_rely0 t t s HG)|reflexivity].
+  - apply log_rely. intros; discriminate.
+  - apply Rely_refl.
 Qed.
 
 (* ---------- the calls ---------- *)
@@ -259,107 +385,255 @@ Variable P : list lapi.        (* the program of thread t *)
 (* between two calls of thread t, `r` being the calls still to come: the sections recorded for t are those of the calls
    made so far, in order, and the results t has reported are the results of its querying / removing sections *)
 Definition Post (r : list lapi) (s : lshared) (l : llocals) : Prop :=
+  lown s <> Some t /\
   exists d, P = d ++ r /\
             Forall2 call_sec (filter has_sec d) (rev (map esec (tsecs t s))) /\
             rl t s = map eres (filter (fun e => negb (adds (esec e))) (tsecs t s)).
 
 Lemma Post_stable r a b y : Rely t a b -> Post r a y -> Post r b y.
 Proof.
-  intros [R1 [R2 _]] [d [A [B C]]]. exists d. rewrite R1, R2. auto.
+  intros [[R1 [R2 _]] R4] [O [d [A [B C]]]]. split; [intro X; apply O; apply R4; exact X|].
+  exists d. rewrite R1, R2. auto.
 Qed.
 
-Lemma Post_locals r s l l' : Post r s l -> Post r s l'.
-Proof. intros H; exact H. Qed.
+(* the facts thread t carries from instruction to instruction: its own sections, its own reported results, a fact W
+   that holds unless the counter has wrapped, a lower bound Kb of the counter (the value it drew), whether it holds the
+   mutex *)
+Definition At (X : list (nat * sec * bool)) (Y : list bool) (W : Prop) (Kb : N) (H : bool) (s : lshared) : Prop :=
+  tsecs t s = X /\ rl t s = Y /\ (W \/ wrapped s) /\ (wrapped s \/ (Kb <= lcc s)%N) /\
+  (if H then lown s = Some t else lown s <> Some t).
 
-
-(* the facts thread t carries from instruction to instruction: its own sections, its own reported results, and a fact W
-   that holds unless the counter has wrapped *)
-Definition At (X : list (nat * sec * bool)) (Y : list bool) (W : Prop) (s : lshared) : Prop :=
-  tsecs t s = X /\ rl t s = Y /\ (W \/ wrapped s).
-
-Lemma At_rely X Y W s s' : At X Y W s -> Rely t s s' -> At X Y W s'.
+Lemma At_rely0 X Y W Kb H s s' : At X Y W Kb H s -> Rely0 t s s' -> (lown s' = Some t <-> lown s = Some t) -> At X Y W Kb H s'.
 Proof.
-  intros [A [B C]] [R1 [R2 R3]]. split; [congruence|]. split; [congruence|]. destruct C; auto.
+  intros [A [B [C [E D]]]] [R1 [R2 [R3 [_ [_ R6]]]]] R4. split; [congruence|]. split; [congruence|]. split; [destruct C; auto|].
+  split.
+  - destruct E as [E|E]; [left; auto|]. destruct R6 as [R6|R6]; [left; exact R6|right; lia].
+  - destruct H; [apply R4; exact D|intro X0; apply D; apply R4; exact X0].
 Qed.
 
-Lemma At_weaken X Y (W W' : Prop) s : (W -> W') -> At X Y W s -> At X Y W' s.
-Proof. intros H [A [B C]]. split; [exact A|]. split; [exact B|]. destruct C; auto. Qed.
+Lemma At_rely X Y W Kb H s s' : At X Y W Kb H s -> Rely t s s' -> At X Y W Kb H s'.
+Proof. intros A [R0 R4]. eapply At_rely0; eauto. Qed.
 
-Lemma At_inc X Y W s l :
-  At X Y W s -> At X Y (lk (snd (veff t JInc s l)) <> 0%N) (fst (veff t JInc s l)).
+Lemma At_inc X Y W Kb H s l :
+  At X Y W Kb H s -> At X Y (lk (snd (veff t JInc s l)) <> 0%N) (lk (snd (veff t JInc s l))) H (fst (veff t JInc s l)).
 Proof.
-  intros [A [B C]]. cbn [veff fst snd lk]. split; [exact A|]. split; [exact B|].
-  destruct (N.eq_dec ((lcc s + 1) mod W32) 0) as [E|E]; [right|left; exact E].
-  exists t. left. rewrite E. reflexivity.
+  intros [A [B [C [E D]]]]. cbn [veff fst snd lk ll_k]. split; [exact A|]. split; [exact B|]. split; [|split; [|exact D]].
+  - destruct (N.eq_dec ((lcc s + 1) mod W32) 0) as [E0|E0]; [right|left; exact E0].
+    exists t. left. rewrite E0. reflexivity.
+  - right. cbn [lcc ls_log ls_cc]. lia.
 Qed.
 
-Lemma At_res X Y W s b : At X Y W s -> At X (b :: Y) W (ls_log s (LaRes t b)).
+Lemma At_res X Y W Kb H s b : At X Y W Kb H s -> At X (b :: Y) W Kb H (ls_log s (LaRes t b)).
 Proof.
-  intros [A [B C]]. split; [exact A|]. split.
+  intros [A [B [C [E D]]]]. split; [exact A|]. split; [|split; [|split; [|exact D]]].
   - unfold rl in *. cbn [llog ls_log flat_map]. rewrite Nat.eqb_refl. cbn [app]. f_equal. exact B.
   - destruct C as [C|C]; [left; exact C|right; apply wrapped_log; exact C].
+  - destruct E as [E|E]; [left; apply wrapped_log; exact E|right; exact E].
+Qed.
+
+Lemma At_lock X Y W Kb s : At X Y W Kb false s -> At X Y W Kb true (ls_own (ls_log s (LaLock t)) (Some t)).
+Proof.
+  intros [A [B [C [E D]]]]. split; [exact A|]. split; [exact B|].
+  assert (Wm : wrapped s -> wrapped (ls_own (ls_log s (LaLock t)) (Some t))) by (intros [u Hu]; exists u; right; exact Hu).
+  split; [destruct C; auto|]. split; [destruct E; auto|reflexivity].
+Qed.
+
+Lemma At_unlock X Y W Kb s : At X Y W Kb true s -> At X Y W Kb false (ls_own (ls_log s (LaUnlock t)) None).
+Proof.
+  intros [A [B [C [E D]]]]. split; [exact A|]. split; [exact B|].
+  assert (Wm : wrapped s -> wrapped (ls_own (ls_log s (LaUnlock t)) None)) by (intros [u Hu]; exists u; right; exact Hu).
+  split; [destruct C; auto|]. split; [destruct E; auto|discriminate].
+Qed.
+
+Lemma At_owns X Y W Kb s : At X Y W Kb true s -> lown s = Some t.
+Proof. intros [_ [_ [_ [_ D]]]]. exact D. Qed.
+
+Lemma At_free X Y W Kb s : At X Y W Kb false s -> lown s <> Some t.
+Proof. intros [_ [_ [_ [_ D]]]]. exact D. Qed.
+
+(* the record of finished traversals does not mind one more section *)
+Lemma GT_cons s s' e :
+  lsecs s' = e :: lsecs s -> ltravs s' = ltravs s -> (wrapped s -> wrapped s') -> GT s -> GT s'.
+Proof.
+  intros A B C G u p0 p1 vis Hin. rewrite B in Hin. destruct (G u p0 p1 vis Hin) as [X [Y Z]].
+  rewrite A. cbn [length]. split; [exact X|]. split; [lia|]. destruct Z as [Z|Z]; [left; auto|right].
+  rewrite !old_rec_cons by lia. exact Z.
 Qed.
 
 (* a section of thread t *)
-Lemma sec_ok X Y (W : Prop) s sc g1 b :
-  At X Y W s -> sec_step (lgrp s) sc = (g1, b) -> (W -> sec_counter_ok sc) ->
-  Guar t s (ls_sec (ls_grp s g1) (t, sc, b)) /\ At ((t, sc, b) :: X) Y W (ls_sec (ls_grp s g1) (t, sc, b)).
+Lemma sec_ok X Y (W : Prop) Kb H s sc g1 b :
+  GI s -> At X Y W Kb H s -> sec_step (lgrp s) sc = (g1, b) -> (W -> sec_counter_ok sc) -> (ctr_of sc <= Kb)%N ->
+  Guar t s (ls_sec (ls_grp s g1) (t, sc, b)) /\ At ((t, sc, b) :: X) Y W Kb H (ls_sec (ls_grp s g1) (t, sc, b)).
 Proof.
-  intros [A [B C]] E HW. split; [split|].
-  - intros [G1 [G2 G3]]. unfold GI. cbn [lgrp lsecs ls_sec ls_grp replay results_ok esec eres fst snd].
-    rewrite <- G1, E. cbn [fst snd]. split; [reflexivity|]. split; [split; [reflexivity|exact G2]|].
-    destruct G3 as [G3|G3]; [left; exact G3|].
-    destruct C as [C|C]; [|left; exact C].
-    right. constructor; [apply HW; exact C|exact G3].
-  - intros u Hu. split; [|split; [reflexivity|auto]].
+  intros HG0 [A [B [C [E D]]]] Es HW HK.
+  assert (GI' : GI (ls_sec (ls_grp s g1) (t, sc, b))).
+  { destruct HG0 as [G1 [G2 [G3 [G4 [G5 [G6 G7]]]]]]. unfold GI.
+    cbn [lgrp lsecs lbad lcc ls_sec ls_grp replay results_ok esec eres fst snd].
+    rewrite <- G1, Es. cbn [fst snd]. split; [reflexivity|]. split; [split; [reflexivity|exact G2]|].
+    assert (Ok : wrapped s \/ rec_ok ((t, sc, b) :: lsecs s)).
+    { destruct G3 as [G3|G3]; [left; exact G3|]. destruct C as [C|C]; [|left; exact C].
+      right. constructor; [apply HW; exact C|exact G3]. }
+    split; [exact Ok|]. split; [exact G4|]. split; [exact G5|]. split.
+    - destruct Ok as [Ok|Ok]; [left; exact Ok|]. destruct G6 as [G6|G6]; [left; exact G6|].
+      destruct E as [E|E]; [left; exact E|right].
+      inversion Ok as [|? ? Hsc Hr]; subst. cbn [esec fst snd] in Hsc.
+      rewrite ids_rec_cons. cbn [esec fst snd]. rewrite <- G1.
+      replace g1 with (fst (sec_step (lgrp s) sc)) by (rewrite Es; reflexivity).
+      apply sec_ctr_bound; auto; [rewrite G1; apply ginv_replay; exact Hr|lia].
+    - eapply (GT_cons s); [reflexivity|reflexivity|auto|exact G7]. }
+  split; [split|].
+  - intros _. exact GI'.
+  - intros u Hu. split; [|reflexivity]. split; [|split; [reflexivity|split; [auto|split; [intros _; exact GI'|split; [exists [(t, sc, b)]; reflexivity|right; cbn [lcc ls_sec ls_grp]; lia]]]]].
     unfold tsecs. cbn [lsecs ls_sec ls_grp filter eth fst].
     destruct (Nat.eqb_spec t u); [subst; contradiction|reflexivity].
-  - split; [|split; [exact B|exact C]].
+  - split; [|split; [exact B|split; [exact C|split; [exact E|exact D]]]].
     unfold tsecs in *. cbn [lsecs ls_sec ls_grp filter eth fst]. rewrite Nat.eqb_refl. f_equal. exact A.
 Qed.
 
-(* a step that leaves the list, the section record and the log alone *)
-Lemma quiet_guar s s' : lgrp s' = lgrp s -> lsecs s' = lsecs s -> llog s' = llog s -> Guar t s s' /\ Rely t s s'.
+(* a step that leaves the list, the records, the log, the counter and the mutex alone *)
+Lemma quiet_guar s s' :
+  lgrp s' = lgrp s -> lsecs s' = lsecs s -> llog s' = llog s -> lown s' = lown s -> lbad s' = lbad s ->
+  lcc s' = lcc s -> ltravs s' = ltravs s -> Guar t s s' /\ Rely t s s'.
 Proof.
-  intros A B C.
+  intros A B C D E F G.
   assert (W : wrapped s -> wrapped s') by (unfold wrapped; rewrite C; auto).
+  assert (GG : GI s -> GI s') by (apply GI_eq; auto).
   assert (R : forall u, Rely u s s').
-  { intros u. unfold Rely, tsecs, rl. rewrite B, C. auto. }
-  split; [split|]; auto. apply GI_eq; auto.
+  { intros u. unfold Rely, Rely0, tsecs, rl. rewrite B, C, D, F.
+    split; [|tauto]. split; [reflexivity|]. split; [reflexivity|]. split; [exact W|]. split; [exact GG|]. split; [exists []; reflexivity|right; lia]. }
+  split; [split|]; auto.
 Qed.
 
-Lemma post_with_sec d c r X Y W Yn sc b s l :
+(* the end of a traversal: its record *)
+Lemma trav_guar s u0 q0 q1 v0 :
+  GI s -> (q0 <= q1 /\ q1 <= length (lsecs s) /\
+           (wrapped s \/ (NoDup v0 /\ forall z, In z (ids_rec (old_rec (lsecs s) q0)) ->
+                                         ~ In z (gone_rec (new_rec (old_rec (lsecs s) q1) q0)) -> In z v0))) ->
+  Guar t s (ls_trav s (u0, q0, q1, v0)) /\ Rely t s (ls_trav s (u0, q0, q1, v0)).
+Proof.
+  intros HG He. set (e := (u0, q0, q1, v0)).
+  assert (GG : GI (ls_trav s e)).
+  { destruct HG as [G1 [G2 [G3 [G4 [G5 [G6 G7]]]]]]. unfold GI. cbn [lgrp lsecs lbad lcc ls_trav].
+    split; [exact G1|]. split; [exact G2|]. split; [exact G3|]. split; [exact G4|]. split; [exact G5|]. split; [exact G6|].
+    intros u p0 p1 vis Hin. cbn [ltravs ls_trav] in Hin. destruct Hin as [Hin|Hin]; [inversion Hin; subst; exact He|exact (G7 u p0 p1 vis Hin)]. }
+  assert (R : forall u, Rely u s (ls_trav s e)).
+  { intros u. split; [|reflexivity]. split; [reflexivity|]. split; [reflexivity|]. split; [auto|]. split; [intros _; exact GG|].
+    split; [exists []; reflexivity|right; cbn [lcc ls_trav]; lia]. }
+  split; [split|]; auto.
+Qed.
+
+Lemma post_with_sec d c r X Y W Kb Yn sc b s l :
   P = d ++ c :: r -> Forall2 call_sec (filter has_sec d) (rev (map esec X)) ->
   Y = map eres (filter (fun e => negb (adds (esec e))) X) ->
   call_sec c sc -> Yn = (if adds sc then Y else b :: Y) ->
-  At ((t, sc, b) :: X) Yn W s -> Post r s l.
+  At ((t, sc, b) :: X) Yn W Kb false s -> Post r s l.
 Proof.
-  intros HP HF HY Hc HYn [A [B _]]. exists (d ++ [c]). split; [rewrite <- app_assoc; exact HP|].
+  intros HP HF HY Hc HYn [A [B [_ [_ D]]]]. split; [exact D|]. exists (d ++ [c]). split; [rewrite <- app_assoc; exact HP|].
   rewrite A, B. split.
   - rewrite filter_app. cbn [filter]. assert (Hs : has_sec c = true) by (destruct c, sc; try contradiction; reflexivity).
     rewrite Hs. cbn [map rev esec fst snd]. apply Forall2_app; [exact HF|constructor; [exact Hc|constructor]].
   - cbn [filter esec fst snd]. subst Yn. destruct (adds sc); cbn [negb map eres snd]; [exact HY|f_equal; exact HY].
 Qed.
 
-Lemma post_without_sec d c r X Y W s l :
+Lemma post_without_sec d c r X Y W Kb s l :
   P = d ++ c :: r -> Forall2 call_sec (filter has_sec d) (rev (map esec X)) ->
   Y = map eres (filter (fun e => negb (adds (esec e))) X) ->
-  has_sec c = false -> At X Y W s -> Post r s l.
+  has_sec c = false -> At X Y W Kb false s -> Post r s l.
 Proof.
-  intros HP HF HY Hc [A [B _]]. exists (d ++ [c]). split; [rewrite <- app_assoc; exact HP|].
+  intros HP HF HY Hc [A [B [_ [_ D]]]]. split; [exact D|]. exists (d ++ [c]). split; [rewrite <- app_assoc; exact HP|].
   rewrite A, B. split; [|exact HY]. rewrite filter_app. cbn [filter]. rewrite Hc, app_nil_r. exact HF.
 Qed.
 
 End THREAD.
 
+(* ---------- the steps of a traversal ---------- *)
+(* the read of head, under the mutex *)
+Lemma trpre_start s l : GI s -> TRpre s (ll_start l (ghead (lgrp s)) (length (lsecs s))).
+Proof.
+  intros G. split; [exact G|]. cbn [lp0 ll_start]. split; [lia|].
+  destruct G as [G1 [G2 [[W|G3] [_ [_ [[W'|G6] _]]]]]]; try (left; exact W); try (left; exact W'). right.
+  intros capt Hc. unfold tstate, tst_of. cbn [lcur lph lvis lp0 ll_start].
+  rewrite old_rec_all, new_rec_all. cbn [gone_rec flat_map]. rewrite G1.
+  apply (tinit_inv capt (replay (lsecs s)) (ids_rec (lsecs s))); [apply ginv_replay; exact G3|].
+  apply (members_pass _ _ (lcc s)); [apply ginv_replay; exact G3|rewrite <- G1; exact G6|exact Hc].
+Qed.
+
+(* own steps that leave the record of sections and the counter alone *)
+Lemma TRpre_own s s' l :
+  lsecs s' = lsecs s -> lcc s' = lcc s -> GI s' -> (wrapped s -> wrapped s') -> TRpre s l -> TRpre s' l.
+Proof.
+  intros A B G W [_ [Hp HT]]. split; [exact G|]. split; [rewrite A; exact Hp|].
+  destruct HT as [HT|HT]; [left; auto|right]. intros capt Hc. unfold tstate. rewrite A. apply HT. rewrite <- B. exact Hc.
+Qed.
+
+Lemma TRinv_own s s' l :
+  lsecs s' = lsecs s -> GI s' -> (wrapped s -> wrapped s') -> TRinv s l -> TRinv s' l.
+Proof.
+  intros A G W [_ [Hp HT]]. split; [exact G|]. split; [rewrite A; exact Hp|].
+  destruct HT as [HT|HT]; [left; auto|right]. unfold tstate. rewrite A. exact HT.
+Qed.
+
+(* the capture of the counter *)
+Lemma trinv_capture t s l : TRpre s l -> TRinv (ls_log s (LaLoad t (lcc s))) (ll_capt l (lcc s)).
+Proof.
+  intros [G [Hp HT]]. split; [apply log_GI; exact G|]. split; [exact Hp|].
+  destruct HT as [HT|HT]; [left; apply wrapped_log; exact HT|right].
+  cbn [lcapt ll_capt]. apply (HT (lcc s)). lia.
+Qed.
+
+(* the look at the current node *)
+Lemma trinv_look s l n nd :
+  TRinv s l -> lph l = false -> lcur l = Some n -> node_of s n = Some nd ->
+  TRinv s (ll_look l (if GenCL.visit_cond (ctr nd) (lcapt l) then lvis l ++ [n] else lvis l)).
+Proof.
+  intros [G [Hp HT]] Hph Hc Hn. split; [exact G|]. split; [exact Hp|].
+  destruct HT as [HT|HT]; [left; exact HT|right].
+  assert (E : tstate s (ll_look l (if GenCL.visit_cond (ctr nd) (lcapt l) then lvis l ++ [n] else lvis l)) =
+              tstep (lcapt l) (tstate s l) TVisit).
+  { unfold tstate, tst_of. cbn [tstep tph tcur tg tids tvis tgone lcur lph lvis lp0 ll_look].
+    rewrite Hph, Hc. unfold node_of in Hn. destruct G as [G1 _]. rewrite G1 in Hn. rewrite Hn. reflexivity. }
+  cbn [lcapt lp0 ll_look]. rewrite E. apply tstep_inv; [exact HT|exact I].
+Qed.
+
+(* the step to the next node, under the mutex *)
+Lemma trinv_step s l n nd :
+  TRinv s l -> lph l = true -> lcur l = Some n -> node_of s n = Some nd -> TRinv s (ll_step l (nxt nd)).
+Proof.
+  intros [G [Hp HT]] Hph Hc Hn. split; [exact G|]. split; [exact Hp|].
+  destruct HT as [HT|HT]; [left; exact HT|right].
+  assert (E : tstate s (ll_step l (nxt nd)) = tstep (lcapt l) (tstate s l) TAdvance).
+  { unfold tstate, tst_of. cbn [tstep tph tcur tg tids tvis tgone lcur lph lvis lp0 ll_step].
+    rewrite Hph, Hc. unfold node_of in Hn. destruct G as [G1 _]. rewrite G1 in Hn. rewrite Hn. reflexivity. }
+  cbn [lcapt lp0 ll_step]. rewrite E. apply tstep_inv; [exact HT|exact I].
+Qed.
+
+(* the node the cursor stands on exists *)
+Lemma trinv_node s l n : TRinv s l -> lcur l = Some n -> wrapped s \/ exists nd, node_of s n = Some nd.
+Proof.
+  intros [G [_ [HT|HT]]] Hc; [left; exact HT|right].
+  destruct (ti_cur _ _ _ HT n Hc) as [nd Hn]. exists nd. unfold node_of. destruct G as [G1 _]. rewrite G1. exact Hn.
+Qed.
+
+(* at the end of the loop: what is recorded about the traversal *)
+Lemma trinv_end s l :
+  TRinv s l -> lcur l = None ->
+  lp0 l <= length (lsecs s) /\ length (lsecs s) <= length (lsecs s) /\
+  (wrapped s \/ (NoDup (lvis l) /\
+                 forall z, In z (ids_rec (old_rec (lsecs s) (lp0 l))) ->
+                           ~ In z (gone_rec (new_rec (old_rec (lsecs s) (length (lsecs s))) (lp0 l))) -> In z (lvis l))).
+Proof.
+  intros [G [Hp HT]] Hc. split; [exact Hp|]. split; [lia|].
+  destruct HT as [HT|HT]; [left; exact HT|right]. rewrite old_rec_all.
+  split; [exact (ti_nodup _ _ _ HT)|].
+  intros z Hz Hg.
+  assert (FL : first_live (heap (tg (tstate s l))) (tcur (tstate s l)) None) by (cbn [tstate tst_of tcur]; rewrite Hc; constructor).
+  destruct (ti_todo _ _ _ HT None FL z Hz Hg) as [X|X]; [destruct X|exact X].
+Qed.
+
 (* ---------- every call keeps its promise ---------- *)
 (* thread t's own harmless steps, as seen by thread t *)
-Lemma own_lock t s : Rely t s (ls_own (ls_log s (LaLock t)) (Some t)).
-Proof. exact (proj2 (veff_guar t JLock s ll0 eq_refl)). Qed.
-Lemma own_unlock t s : Rely t s (ls_own (ls_log s (LaUnlock t)) None).
-Proof. exact (proj2 (veff_guar t JUnlock s ll0 eq_refl)). Qed.
 Lemma own_load t s : Rely t s (ls_log s (LaLoad t (lcc s))).
-Proof. exact (proj2 (veff_guar t JLoad s ll0 eq_refl)). Qed.
+Proof. apply log_rely. intros; discriminate. Qed.
 Lemma own_reg t s h v : Rely t s (ls_reg s h v).
 Proof. apply (quiet_guar t s (ls_reg s h v)); reflexivity. Qed.
 Lemma own_done t s : Rely t s (ls_log s (LaDone t)).
@@ -369,8 +643,7 @@ Proof. apply log_rely. intros; discriminate. Qed.
 Lemma own_visit t s c : Rely t s (ls_log s (LaVisit t c)).
 Proof. apply log_rely. intros; discriminate. Qed.
 
-Ltac own := first [ apply Rely_refl | apply own_lock | apply own_unlock | apply own_load | apply own_reg | apply own_done
-                  | apply own_call | apply own_visit ].
+Ltac own := first [ apply Rely_refl | apply own_load | apply own_reg | apply own_done | apply own_call | apply own_visit ].
 
 (* the next instruction reads the shared state afresh: carry the facts over the interference and over thread t's own
    last (harmless) step *)
@@ -380,11 +653,11 @@ Ltac hv :=
   match type of HR with
   | Rely ?t ?a s1 =>
       match goal with
-      | [ HA : At t ?X ?Y ?W ?s0 |- _ ] =>
-          first [ apply (fun h => At_rely t X Y W s0 s1 h HR) in HA
+      | [ HA : At t ?X ?Y ?W ?Kb ?H ?s0 |- _ ] =>
+          first [ apply (fun h => At_rely t X Y W Kb H s0 s1 h HR) in HA
                 | let Hown := fresh in
                   assert (Hown : Rely t s0 a) by own;
-                  apply (fun h => At_rely t X Y W s0 s1 h (Rely_trans t s0 a s1 Hown HR)) in HA; clear Hown ]
+                  apply (fun h => At_rely t X Y W Kb H s0 s1 h (Rely_trans t s0 a s1 Hown HR)) in HA; clear Hown ]
       end
   end; clear HR.
 
@@ -393,124 +666,208 @@ Ltac quiet :=
   | [ |- Guar ?t ?s ?s' ] => apply (quiet_guar t s s'); reflexivity
   end.
 
-Ltac dosec HA :=
+(* taking and giving back the mutex *)
+Ltac lck :=
+  hv; match goal with [ HA : At ?t ?X ?Y ?W ?Kb false ?s |- _ ] =>
+        split; [exact (At_free t X Y W Kb s HA)|]; apply At_lock in HA end.
+Ltac ulk :=
+  hv; match goal with [ HA : At ?t ?X ?Y ?W ?Kb true ?s |- _ ] =>
+        split; [exact (At_owns t X Y W Kb s HA)|]; apply At_unlock in HA end.
+(* the side condition of a piece of local code: under the mutex, or touching nothing the mutex guards *)
+Ltac lockedp :=
+  match goal with
+  | [ |- (true = true -> _) /\ _ ] =>
+      match goal with [ HA : At ?t ?X ?Y ?W ?Kb true ?s |- _ ] => split; [intros _; exact (At_owns t X Y W Kb s HA)|] end
+  | [ |- (false = true -> _) /\ _ ] => split; [intros X0; discriminate X0|]
+  end.
+(* a piece of local code: the shared state afresh, the global invariant there *)
+Ltac lc := hv; let HG := fresh "HG" in intros HG; lockedp.
+
+Ltac dosec HA HG :=
   match goal with
   | [ |- context [ sec_step (lgrp ?s) ?sc ] ] =>
       let g1 := fresh "g" in let b := fresh "b" in let E := fresh "E" in
       destruct (sec_step (lgrp s) sc) as [g1 b] eqn:E; cbn [fst snd adds];
       let G := fresh "G" in let HA2 := fresh "HA" in
       match type of HA with
-      | At ?t ?X ?Y ?W s =>
-          destruct (sec_ok t X Y W s sc g1 b HA E) as [G HA2]; [try (intros H; exact H); try (intros _; exact I)|];
+      | At ?t ?X ?Y ?W ?Kb ?H s =>
+          destruct (sec_ok t X Y W Kb H s sc g1 b HG HA E) as [G HA2];
+          [try (intros H0; exact H0); try (intros _; exact I)|cbn [ctr_of]; lia|];
           split; [exact G|]; clear HA G
       end
   end.
 
-Ltac hvl :=
-  let s1 := fresh "s" in let l1 := fresh "l" in let HR := fresh "HR" in
-  intros s1 l1 HR;
-  match type of HR with
-  | Rely ?t ?a s1 =>
-      match goal with
-      | [ HA : At t ?X ?Y ?W ?s0 |- _ ] =>
-          first [ apply (fun h => At_rely t X Y W s0 s1 h HR) in HA
-                | let Hown := fresh in
-                  assert (Hown : Rely t s0 a) by own;
-                  apply (fun h => At_rely t X Y W s0 s1 h (Rely_trans t s0 a s1 Hown HR)) in HA; clear Hown ]
-      end
-  end; clear HR.
-
 Lemma call_ok t P c r s l0 :
   Post t P (c :: r) s l0 -> wcl t (lcode_of c) (Post t P r) s ll0.
 Proof.
-  intros [d [HP [HF HY]]].
+  intros [HO [d [HP [HF HY]]]].
   remember (tsecs t s) as X eqn:EX. remember (rl t s) as Y eqn:EY.
-  assert (HA : At t X Y True s) by (split; [auto|split; [auto|left; exact I]]).
-  clear EX EY.
-  destruct c as [cb h|cb h|cb hb h|h|h| |a|]; cbn [lcode_of draw app wcl wci do_sec veff fst snd lk ln lresb ll0].
+  assert (HA : At t X Y True 0%N false s) by (split; [auto|split; [auto|split; [left; exact I|split; [right; lia|exact HO]]]]).
+  clear EX EY HO.
+  destruct c as [cb h|cb h|cb hb h|h|h| |a|];
+    cbn [lcode_of draw app wcl wci do_sec veff fst snd lk ln lresb ll0 ll_k ll_n ll_resb ll_before ll_capt lbefore lcur lcapt lvis lph lp0].
   - (* append *)
-    hv. apply (At_inc t X Y True s0 ll0) in HA. cbn [veff fst snd lk] in HA.
-    hv. hv. dosec HA. hv. hv. split; [quiet|]. hv.
-    apply (fun h => At_rely _ _ _ _ _ _ h (own_done t s5)) in HA0.
-    refine (post_with_sec t P d _ r X Y _ _ _ _ _ _ HP HF HY _ _ HA0); reflexivity.
+    hv. apply (At_inc t X Y True 0%N false s0 ll0) in HA. cbn [veff fst snd lk ll_k] in HA.
+    lck. lc. dosec HA HG. ulk. lc. split; [quiet|]. hv.
+    apply (fun h => At_rely _ _ _ _ _ _ _ _ h (own_done t s5)) in HA0.
+    refine (post_with_sec t P d _ r X Y _ _ _ _ _ _ _ HP HF HY _ _ HA0); reflexivity.
   - (* prepend *)
-    hv. apply (At_inc t X Y True s0 ll0) in HA. cbn [veff fst snd lk] in HA.
-    hv. hv. dosec HA. hv. hv. split; [quiet|]. hv.
-    apply (fun h => At_rely _ _ _ _ _ _ h (own_done t s5)) in HA0.
-    refine (post_with_sec t P d _ r X Y _ _ _ _ _ _ HP HF HY _ _ HA0); reflexivity.
+    hv. apply (At_inc t X Y True 0%N false s0 ll0) in HA. cbn [veff fst snd lk ll_k] in HA.
+    lck. lc. dosec HA HG. ulk. lc. split; [quiet|]. hv.
+    apply (fun h => At_rely _ _ _ _ _ _ _ _ h (own_done t s5)) in HA0.
+    refine (post_with_sec t P d _ r X Y _ _ _ _ _ _ _ HP HF HY _ _ HA0); reflexivity.
   - (* insert *)
-    hv. split; [quiet|]. hv.
-    apply (At_inc t X Y True s1 (mkLL None 0%N (reg_of s0 hb) None 0%N false)) in HA. cbn [veff fst snd lk] in HA.
-    hv. hv. dosec HA. hv. hv. split; [quiet|]. hv.
-    apply (fun h => At_rely _ _ _ _ _ _ h (own_done t s6)) in HA0.
-    refine (post_with_sec t P d _ r X Y _ _ _ _ _ _ HP HF HY _ _ HA0); reflexivity.
+    lc. split; [quiet|]. hv.
+    apply (At_inc t X Y True 0%N false s1 (ll_before ll0 (reg_of s0 hb))) in HA. cbn [veff fst snd lk ll_k ll_before] in HA.
+    lck. lc. dosec HA HG0. ulk. lc. split; [quiet|]. hv.
+    apply (fun h => At_rely _ _ _ _ _ _ _ _ h (own_done t s6)) in HA0.
+    refine (post_with_sec t P d _ r X Y _ _ _ _ _ _ _ HP HF HY _ _ HA0); reflexivity.
   - (* remove *)
-    hv. hv. dosec HA. hv. hv.
-    apply (At_res t _ _ _ s3 b) in HA0.
-    refine (post_with_sec t P d _ r X Y _ _ _ _ _ _ HP HF HY _ _ HA0); reflexivity.
+    lck. lc. dosec HA HG. ulk. hv.
+    apply (At_res t _ _ _ _ _ s3 b) in HA0.
+    refine (post_with_sec t P d _ r X Y _ _ _ _ _ _ _ HP HF HY _ _ HA0); reflexivity.
   - (* ownsHandle *)
-    hv. hv. dosec HA. hv. hv.
-    apply (At_res t _ _ _ s3 b) in HA0.
-    refine (post_with_sec t P d _ r X Y _ _ _ _ _ _ HP HF HY _ _ HA0); reflexivity.
+    lck. lc. dosec HA HG. ulk. hv.
+    apply (At_res t _ _ _ _ _ s3 b) in HA0.
+    refine (post_with_sec t P d _ r X Y _ _ _ _ _ _ _ HP HF HY _ _ HA0); reflexivity.
   - (* empty *)
-    hv. dosec HA. hv.
-    apply (At_res t _ _ _ s1 b) in HA0.
-    refine (post_with_sec t P d _ r X Y _ _ _ _ _ _ HP HF HY _ _ HA0); reflexivity.
+    lc. dosec HA HG. hv.
+    apply (At_res t _ _ _ _ _ s1 b) in HA0.
+    refine (post_with_sec t P d _ r X Y _ _ _ _ _ _ _ HP HF HY _ _ HA0); reflexivity.
   - (* invoke *)
-    hv. hv. split; [quiet|]. hv. hv. hvl. hv.
-    apply (fun h => At_rely _ _ _ _ _ _ h (own_done t s5)) in HA.
-    refine (post_without_sec t P d _ r X Y _ _ _ HP HF HY _ HA); reflexivity.
+    lck. lc. split; [quiet|].
+    pose proof (trpre_start s1 ll0 HG) as HT.
+    (* unlock *)
+    intros s2 HR2. apply (fun h => At_rely _ _ _ _ _ _ _ _ h HR2) in HA.
+    apply (fun h => TRpre_rely t _ _ _ h (proj1 HR2)) in HT. clear HR2.
+    split; [exact (At_owns _ _ _ _ _ _ HA)|]. apply At_unlock in HA.
+    apply (TRpre_own s2 (ls_own (ls_log s2 (LaUnlock t)) None)) in HT;
+      [|reflexivity|reflexivity|apply own_GI; exact (proj1 HT)|intros [u Hu]; exists u; right; exact Hu].
+    (* load *)
+    intros s3 HR3. apply (fun h => At_rely _ _ _ _ _ _ _ _ h HR3) in HA.
+    apply (fun h => TRpre_rely t _ _ _ h (proj1 HR3)) in HT. clear HR3.
+    apply (fun h => At_rely _ _ _ _ _ _ _ _ h (own_load t s3)) in HA.
+    apply (trinv_capture t) in HT.
+    (* the loop *)
+    split; [exact (At_free _ _ _ _ _ _ HA)|]. split; [split; [exact HT|reflexivity]|].
+    intros s4 l4 HR4 [HT4 _] Hc4. apply (fun h => At_rely _ _ _ _ _ _ _ _ h HR4) in HA. clear HR4 HT.
+    (* the record of the traversal *)
+    intros s5 HR5 HG5. apply (fun h => At_rely _ _ _ _ _ _ _ _ h HR5) in HA.
+    apply (fun h => TRinv_rely t _ _ _ h (proj1 HR5)) in HT4. clear HR5.
+    split; [intros X0; discriminate X0|].
+    destruct (trav_guar t s5 t (lp0 l4) (length (lsecs s5)) (lvis l4) HG5 (trinv_end s5 l4 HT4 Hc4)) as [GG RR].
+    split; [exact GG|]. apply (fun h => At_rely _ _ _ _ _ _ _ _ h RR) in HA.
+    hv. apply (fun h => At_rely _ _ _ _ _ _ _ _ h (own_done t s6)) in HA.
+    refine (post_without_sec t P d _ r X Y _ _ _ _ HP HF HY _ HA); reflexivity.
   - (* forEach *)
-    hv. hv. split; [quiet|]. hv. hv. hvl. hv.
-    apply (fun h => At_rely _ _ _ _ _ _ h (own_done t s5)) in HA.
-    refine (post_without_sec t P d _ r X Y _ _ _ HP HF HY _ HA); reflexivity.
+    lck. lc. split; [quiet|].
+    pose proof (trpre_start s1 ll0 HG) as HT.
+    intros s2 HR2. apply (fun h => At_rely _ _ _ _ _ _ _ _ h HR2) in HA.
+    apply (fun h => TRpre_rely t _ _ _ h (proj1 HR2)) in HT. clear HR2.
+    split; [exact (At_owns _ _ _ _ _ _ HA)|]. apply At_unlock in HA.
+    apply (TRpre_own s2 (ls_own (ls_log s2 (LaUnlock t)) None)) in HT;
+      [|reflexivity|reflexivity|apply own_GI; exact (proj1 HT)|intros [u Hu]; exists u; right; exact Hu].
+    intros s3 HR3. apply (fun h => At_rely _ _ _ _ _ _ _ _ h HR3) in HA.
+    apply (fun h => TRpre_rely t _ _ _ h (proj1 HR3)) in HT. clear HR3.
+    apply (fun h => At_rely _ _ _ _ _ _ _ _ h (own_load t s3)) in HA.
+    apply (trinv_capture t) in HT.
+    split; [exact (At_free _ _ _ _ _ _ HA)|]. split; [split; [exact HT|reflexivity]|].
+    intros s4 l4 HR4 [HT4 _] Hc4. apply (fun h => At_rely _ _ _ _ _ _ _ _ h HR4) in HA. clear HR4 HT.
+    intros s5 HR5 HG5. apply (fun h => At_rely _ _ _ _ _ _ _ _ h HR5) in HA.
+    apply (fun h => TRinv_rely t _ _ _ h (proj1 HR5)) in HT4. clear HR5.
+    split; [intros X0; discriminate X0|].
+    destruct (trav_guar t s5 t (lp0 l4) (length (lsecs s5)) (lvis l4) HG5 (trinv_end s5 l4 HT4 Hc4)) as [GG RR].
+    split; [exact GG|]. apply (fun h => At_rely _ _ _ _ _ _ _ _ h RR) in HA.
+    hv. apply (fun h => At_rely _ _ _ _ _ _ _ _ h (own_done t s6)) in HA.
+    refine (post_without_sec t P d _ r X Y _ _ _ _ HP HF HY _ HA); reflexivity.
 Qed.
+
+Lemma own_rely0' t s a o : (forall b, a <> LaRes t b) -> Rely0 t s (ls_own (ls_log s a) o).
+Proof. exact (own_rely0 t s a o). Qed.
+
+Lemma Rely_wrapped t a b : Rely t a b -> wrapped a -> wrapped b.
+Proof. intros [[_ [_ [W _]]] _]. exact W. Qed.
+
+Lemma wrapped_own s a o : wrapped s -> wrapped (ls_own (ls_log s a) o).
+Proof. intros [u Hu]. exists u. right. exact Hu. Qed.
+
+Lemma TRinv_wrapped s l : GI s -> lp0 l <= length (lsecs s) -> wrapped s -> TRinv s l.
+Proof. intros G Hp W. split; [exact G|]. split; [exact Hp|left; exact W]. Qed.
 
 (* the loop of doForEachIf: one more iteration, or the exit *)
 Lemma loop_ok t m rest (K : lshared -> llocals -> Prop) s l :
   wci t JLoop (wcl t rest K) s l -> wcl t (loop_body m ++ rest) K s l.
 Proof.
-  intros H. cbn [wci] in H. apply wcl_app. unfold loop_body. cbn [wcl]. rewrite wci_if.
-  intros s1 HR1. split; intros Hc.
-  - cbn [wcl wci veff fst snd].
-    intros s2 HR2.
-    assert (V : Guar t s2 (fst (match lcur l with
-                                | Some n => match node_of s2 n with
-                                            | Some nd => if GenCL.visit_cond (ctr nd) (lcapt l)
-                                                         then (ls_log s2 (match m with Some a => LaCall t (cb nd) a | None => LaVisit t (cb nd) end), l)
-                                                         else (s2, l)
-                                            | None => (s2, l)
-                                            end
-                                | None => (s2, l)
-                                end)) /\
-                Rely t s2 (fst (match lcur l with
-                                | Some n => match node_of s2 n with
-                                            | Some nd => if GenCL.visit_cond (ctr nd) (lcapt l)
-                                                         then (ls_log s2 (match m with Some a => LaCall t (cb nd) a | None => LaVisit t (cb nd) end), l)
-                                                         else (s2, l)
-                                            | None => (s2, l)
-                                            end
-                                | None => (s2, l)
-                                end))).
-    { destruct (lcur l) as [n|]; [|split; [apply Guar_refl|apply Rely_refl]].
-      destruct (node_of s2 n) as [nd|]; [|split; [apply Guar_refl|apply Rely_refl]].
-      destruct (GenCL.visit_cond (ctr nd) (lcapt l)); [|split; [apply Guar_refl|apply Rely_refl]].
-      cbn [fst]. destruct m; (split; [apply log_guar; intros; discriminate|apply log_rely; intros; discriminate]). }
-    destruct V as [V1 V2]. split; [exact V1|].
-    intros s3 HR3. intros s4 HR4.
-    assert (Q : forall (x : lshared * llocals), fst x = ls_own (ls_log s3 (LaLock t)) (Some t) -> True) by auto.
-    split.
-    + destruct (snd _) as [? ? ? cur ? ?] eqn:El. cbn [lcur]. destruct cur as [n|]; [|apply Guar_refl].
-      destruct (node_of s4 n); apply Guar_refl.
-    + intros s5 HR5 s6 l6 HR6. apply H.
-      assert (E4 : forall (x : lshared * llocals) n, fst (match node_of s4 n with Some nd => (s4, snd x) | None => (s4, snd x) end) = s4)
-        by (intros; destruct (node_of s4 n); reflexivity).
-      eapply Rely_trans; [exact HR1|]. eapply Rely_trans; [exact HR2|]. eapply Rely_trans; [exact V2|].
-      eapply Rely_trans; [exact HR3|]. eapply Rely_trans; [apply own_lock|]. eapply Rely_trans; [exact HR4|].
-      match type of HR5 with Rely _ ?a _ => assert (E5 : a = s4) end.
-      { destruct (snd _) as [? ? ? cur ? ?]. cbn [lcur]. destruct cur as [n|]; [|reflexivity]. destruct (node_of s4 n); reflexivity. }
-      rewrite E5 in HR5. eapply Rely_trans; [exact HR5|]. eapply Rely_trans; [apply own_unlock|]. exact HR6.
-  - cbn [wcl]. apply H. exact HR1.
+  intros [HO [[HT Hph] H]]. apply wcl_app. unfold loop_body. cbn [wcl]. rewrite wci_if.
+  intros s1 HR1.
+  assert (HT1 : TRinv s1 l) by (eapply TRinv_rely; [exact HT|exact (proj1 HR1)]).
+  split; intros Hc.
+  - destruct (lcur l) as [n|] eqn:Ec; [|discriminate Hc]. clear Hc.
+    cbn [wcl wci veff fst snd]. rewrite Ec.
+    (* the look at the current node *)
+    intros s2 HR2 HG2. split; [intros X; discriminate X|].
+    assert (HT2 : TRinv s2 l) by (eapply TRinv_rely; [exact HT1|exact (proj1 HR2)]).
+    match goal with |- Guar _ _ (fst ?r) /\ _ => set (r2 := r) end.
+    assert (V : Guar t s2 (fst r2) /\ Rely t s2 (fst r2) /\ TRinv (fst r2) (snd r2) /\ lcur (snd r2) = Some n /\
+                (wrapped (fst r2) \/ lph (snd r2) = true)).
+    { subst r2. destruct (node_of s2 n) as [nd|] eqn:En.
+      - pose proof (trinv_look s2 l n nd HT2 Hph Ec En) as HL.
+        destruct (GenCL.visit_cond (ctr nd) (lcapt l)); cbn [fst snd].
+        + split; [destruct m; apply log_guar; intros; discriminate|].
+          split; [destruct m; apply log_rely; intros; discriminate|].
+          split; [|split; [exact Ec|right; reflexivity]].
+          eapply (TRinv_own s2); [reflexivity|apply log_GI; exact HG2|apply wrapped_log|exact HL].
+        + split; [apply Guar_refl|]. split; [apply Rely_refl|]. split; [exact HL|split; [exact Ec|right; reflexivity]].
+      - destruct (trinv_node s2 l n HT2 Ec) as [W|[nd E']]; [|congruence]. cbn [fst snd].
+        split; [apply Guar_refl|]. split; [apply Rely_refl|]. split; [exact HT2|split; [exact Ec|left; exact W]]. }
+    clearbody r2. destruct r2 as [s2' l2]. cbn [fst snd] in *. destruct V as [V1 [V2 [V3 [V4 V5]]]].
+    split; [exact V1|].
+    (* the mutex *)
+    intros s3 HR3.
+    assert (R03 : Rely t s s3).
+    { eapply Rely_trans; [exact HR1|]. eapply Rely_trans; [exact HR2|]. eapply Rely_trans; [exact V2|exact HR3]. }
+    split; [intro X; apply HO; apply (proj2 R03); exact X|].
+    (* the step to the next node *)
+    intros s4 HR4 HG4.
+    assert (O4 : lown s4 = Some t) by (apply (proj2 HR4); reflexivity).
+    split; [intros _; exact O4|].
+    assert (HT3 : TRinv s3 l2) by (eapply TRinv_rely; [exact V3|exact (proj1 HR3)]).
+    assert (HT4 : TRinv s4 l2).
+    { eapply TRinv_rely; [|exact (proj1 HR4)].
+      apply (TRinv_own s3); [reflexivity|apply own_GI; exact (proj1 HT3)|intros [u Hu]; exists u; right; exact Hu|exact HT3]. }
+    assert (W4 : wrapped s4 \/ lph l2 = true).
+    { destruct V5 as [W|P2]; [left|right; exact P2].
+      eapply Rely_wrapped; [exact HR4|]. apply wrapped_own. eapply Rely_wrapped; [exact HR3|exact W]. }
+    rewrite V4.
+    match goal with |- Guar _ _ (fst ?r) /\ _ => set (r4 := r) end.
+    assert (S4 : fst r4 = s4 /\ LoopI s4 (snd r4)).
+    { subst r4. destruct (node_of s4 n) as [nd|] eqn:En4; cbn [fst snd].
+      - split; [reflexivity|]. split; [|reflexivity].
+        destruct W4 as [W|P2]; [apply TRinv_wrapped; [exact HG4|exact (proj1 (proj2 HT4))|exact W]|].
+        exact (trinv_step s4 l2 n nd HT4 P2 V4 En4).
+      - split; [reflexivity|]. split; [|reflexivity].
+        destruct (trinv_node s4 l2 n HT4 V4) as [W|[nd E']]; [|congruence].
+        apply TRinv_wrapped; [exact HG4|exact (proj1 (proj2 HT4))|exact W]. }
+    clearbody r4. destruct r4 as [s4' l4]. cbn [fst snd] in *. destruct S4 as [-> [HT4' Hph4]].
+    split; [apply Guar_refl|].
+    (* the mutex is given back *)
+    intros s5 HR5.
+    split; [apply (proj2 HR5); exact O4|].
+    assert (HT5 : TRinv (ls_own (ls_log s5 (LaUnlock t)) None) l4).
+    { apply (TRinv_own s5); [reflexivity| |apply wrapped_own|eapply TRinv_rely; [exact HT4'|exact (proj1 HR5)]].
+      apply own_GI. exact (proj1 (TRinv_rely t _ _ _ HT4' (proj1 HR5))). }
+    split; [cbn [lown ls_own]; discriminate|]. split; [split; [exact HT5|exact Hph4]|].
+    intros s6 l6 HR6 HL6 Hc6. apply H; [|exact HL6|exact Hc6]. split.
+    + eapply Rely0_trans; [exact (proj1 R03)|].
+      eapply Rely0_trans; [apply (own_rely0 t s3 (LaLock t) (Some t)); intros; discriminate|].
+      eapply Rely0_trans; [exact (proj1 HR4)|].
+      eapply Rely0_trans; [exact (proj1 HR5)|].
+      eapply Rely0_trans; [apply (own_rely0 t s5 (LaUnlock t) None); intros; discriminate|].
+      exact (proj1 HR6).
+    + split; intros X; exfalso.
+      * apply (proj2 HR6) in X. cbn [lown ls_own] in X. discriminate X.
+      * exact (HO X).
+  - cbn [wcl]. apply H; [exact HR1|split; [exact HT1|exact Hph]|]. destruct (lcur l); [discriminate Hc|reflexivity].
 Qed.
 
 (* ---------- soundness along the machine ---------- *)
@@ -551,7 +908,10 @@ Proof.
     + cbn [wcl] in HW. destruct i as [| | | | |b fn|c x y| | |];
         try (cbn [fst snd]; split; [exact HG|]; split; [exact HW|apply others_refl]).
       * (* local *)
-        cbn [wci] in HW. destruct (HW s (Rely_refl t s)) as [[G1 G2] HK].
+        cbn [wci] in HW. destruct (HW s (Rely_refl t s) HG) as [Hb [[G1 G2] HK]].
+        assert (E0 : (if b && negb (holds t s) then ls_bad s else s) = s).
+        { destruct b; [|reflexivity]. unfold holds. rewrite (Hb eq_refl), Nat.eqb_refl. reflexivity. }
+        rewrite E0. clear E0.
         destruct (fn t s l) as [s1 l1] eqn:E. cbn [fst snd] in *.
         destruct (IH s1 rest cl l1 m (G1 HG) HK) as [A [B C]].
         split; [exact A|]. split; [exact B|]. eapply others_trans; [exact G2|exact C].
@@ -572,8 +932,11 @@ Proof.
         split; [exact A|]. split; [exact B|]. eapply others_trans; [exact G2|exact C].
 Qed.
 
+(* the invariant over configurations: the global facts, every thread's assertion, and: whoever holds the mutex is a
+   thread that has not finished *)
 Definition Inv (s : lshared) (ths : list lthread) : Prop :=
-  GI s /\ forall t th, nth_error ths t = Some th -> th_ok t th s.
+  GI s /\ (forall t th, nth_error ths t = Some th -> th_ok t th s) /\
+  (forall u, lown s = Some u -> exists th, nth_error ths u = Some th /\ lfin th = false).
 
 Lemma nth_lset : forall (ths : list lthread) t x u,
   nth_error (lset ths t x) u = if Nat.eqb u t then match nth_error ths t with Some _ => Some x | None => None end else nth_error ths u.
@@ -583,88 +946,153 @@ Proof.
   - destruct t as [|t]; destruct u as [|u]; cbn [nth_error Nat.eqb]; try reflexivity. apply IH.
 Qed.
 
+Lemma finished_frees t th s : th_ok t th s -> lfin th = true -> lown s <> Some t.
+Proof. unfold th_ok. intros H F. rewrite F in H. destruct H as [_ [O _]]. exact O. Qed.
+
 Lemma lperform_ok t s ths :
-  Inv s ths -> Inv (fst (lperform t s ths)) (snd (lperform t s ths)).
+  Inv s ths -> (forall th, nth_error ths t = Some th -> lenabled s th = true) ->
+  Inv (fst (lperform t s ths)) (snd (lperform t s ths)).
 Proof.
-  intros [HG HT]. unfold lperform. destruct (nth_error ths t) as [th|] eqn:Et; [|split; assumption].
+  intros [HG [HT HO]] Hen. unfold lperform. destruct (nth_error ths t) as [th|] eqn:Et; [|split; [|split]; assumption].
+  specialize (Hen th eq_refl).
   destruct th as [cd cl l fin m]. cbn [lcode lcalls lloc lmode].
-  destruct cd as [|i rest]; [split; assumption|].
   assert (Hth := HT t _ Et). unfold th_ok in Hth. cbn [lfin lcode lcalls lloc] in Hth.
-  destruct fin; [destruct Hth as [X _]; discriminate|].
-  cbn [wcl] in Hth.
-  (* the visible action, if the head is one, then the local code behind it *)
+  unfold lenabled in Hen. cbn [lfin lcode] in Hen.
+  destruct fin; [discriminate Hen|].
+  (* what is left after the visible action (if the head is one) runs on as local code *)
   assert (Fin : forall s1 cd1 l1, GI s1 -> wcl t cd1 (Post t (prog t) cl) s1 l1 -> others t s s1 ->
             Inv (fst (let '(s2, th2) := ladvance LFUEL t s1 (mkLT cd1 cl l1 false m) in (s2, lset ths t th2)))
                 (snd (let '(s2, th2) := ladvance LFUEL t s1 (mkLT cd1 cl l1 false m) in (s2, lset ths t th2)))).
   { intros s1 cd1 l1 G1 W1 O1.
     destruct (ladvance_ok t LFUEL s1 cd1 cl l1 m G1 W1) as [A [B C]].
     destruct (ladvance LFUEL t s1 (mkLT cd1 cl l1 false m)) as [s2 th2]. cbn [fst snd] in *.
-    split; [exact A|].
-    intros u th' Hu. rewrite nth_lset in Hu. destruct (Nat.eqb_spec u t) as [->|Hne].
-    - rewrite Et in Hu. inversion Hu; subst th'. exact B.
-    - eapply th_ok_stable; [|apply HT; exact Hu]. eapply Rely_trans; [apply O1; exact Hne|apply C; exact Hne]. }
+    assert (O2 : others t s s2) by (eapply others_trans; eauto).
+    split; [exact A|]. split.
+    - intros u th' Hu. rewrite nth_lset in Hu. destruct (Nat.eqb_spec u t) as [->|Hne].
+      + rewrite Et in Hu. inversion Hu; subst th'. exact B.
+      + eapply th_ok_stable; [|apply HT; exact Hu]. apply O2. exact Hne.
+    - intros u Hu. destruct (Nat.eq_dec u t) as [->|Hne].
+      + exists th2. rewrite nth_lset, Nat.eqb_refl, Et. split; [reflexivity|].
+        destruct (lfin th2) eqn:F; [|reflexivity]. exfalso. exact (finished_frees t th2 s2 B F Hu).
+      + destruct (HO u (proj1 (proj2 (O2 u Hne)) Hu)) as [thu [Eu Fu]]. exists thu. split; [|exact Fu].
+        rewrite nth_lset. destruct (Nat.eqb_spec u t); [contradiction|exact Eu]. }
+  destruct cd as [|i rest].
+  { (* between two calls *) apply Fin; [exact HG|exact Hth|apply others_refl]. }
+  cbn [wcl] in Hth.
   destruct i as [| | | | |b fn|c x y| | |]; cbn beta iota zeta.
   6-10: (apply Fin; [exact HG|exact Hth|apply others_refl]).
   all: cbn [wci] in Hth; specialize (Hth s (Rely_refl t s)); cbn [veff fst snd] in Hth.
-  - destruct (veff_guar t JLock s l eq_refl) as [[G1 G2] _]. apply Fin; [exact (G1 HG)|exact Hth|exact G2].
-  - destruct (veff_guar t JUnlock s l eq_refl) as [[G1 G2] _]. apply Fin; [exact (G1 HG)|exact Hth|exact G2].
-  - destruct (veff_guar t JInc s l eq_refl) as [[G1 G2] _]. apply Fin; [exact (G1 HG)|exact Hth|exact G2].
-  - destruct (veff_guar t JLoad s l eq_refl) as [[G1 G2] _]. apply Fin; [exact (G1 HG)|exact Hth|exact G2].
+  - (* lock: the mutex was free *)
+    destruct Hth as [_ Hth]. destruct (lown s) eqn:Eo; [discriminate Hen|].
+    destruct (veff_guar t JLock s l eq_refl HG (fun _ => Eo) (fun X => ltac:(discriminate X))) as [G1 G2].
+    apply Fin; [exact (G1 HG)|exact Hth|exact G2].
+  - (* unlock: by the owner *)
+    destruct Hth as [Ho Hth].
+    destruct (veff_guar t JUnlock s l eq_refl HG (fun X => ltac:(discriminate X)) (fun _ => Ho)) as [G1 G2].
+    apply Fin; [exact (G1 HG)|exact Hth|exact G2].
+  - destruct (veff_guar t JInc s l eq_refl HG (fun X => ltac:(discriminate X)) (fun X => ltac:(discriminate X))) as [G1 G2].
+    apply Fin; [exact (G1 HG)|exact Hth|exact G2].
+  - destruct (veff_guar t JLoad s l eq_refl HG (fun X => ltac:(discriminate X)) (fun X => ltac:(discriminate X))) as [G1 G2].
+    apply Fin; [exact (G1 HG)|exact Hth|exact G2].
   - apply Fin; [exact HG|exact Hth|apply others_refl].
 Qed.
 
 Lemma Inv_log s ths : Inv s ths -> Inv (ls_log s LaDeadlock) ths.
 Proof.
-  intros [HG HT]. split.
-  - apply (GI_eq s (ls_log s LaDeadlock)); [reflexivity|reflexivity|apply wrapped_log|exact HG].
+  intros [HG [HT HO]]. split; [|split].
+  - apply log_GI. exact HG.
   - intros t th H. eapply th_ok_stable; [|apply HT; exact H]. apply log_rely. intros; discriminate.
+  - exact HO.
+Qed.
+
+Lemma lnext_enabled s ths : forall sch t r, lnext s ths sch = (Some t, r) ->
+  forall th, nth_error ths t = Some th -> lenabled s th = true.
+Proof.
+  induction sch as [|x sch IH]; intros t r H th Hth; cbn [lnext] in H; [discriminate|].
+  destruct (nth_error ths x) as [thx|] eqn:Ex.
+  - destruct (lenabled s thx) eqn:En.
+    + inversion H; subst. rewrite Ex in Hth. inversion Hth; subst. exact En.
+    + eapply IH; eauto.
+  - eapply IH; eauto.
+Qed.
+
+Lemma lfirst_some p : forall (l : list lthread) i t, lfirst l i p = Some t ->
+  exists th, nth_error l (t - i) = Some th /\ p th = true /\ i <= t.
+Proof.
+  induction l as [|x l IH]; intros i t H; cbn [lfirst] in H; [discriminate|].
+  destruct (p x) eqn:Ep.
+  - inversion H; subst. exists x. rewrite Nat.sub_diag. repeat split; auto.
+  - destruct (IH (S i) t H) as [th [A [B C]]]. exists th. split; [|split; [exact B|lia]].
+    replace (t - i) with (S (t - S i)) by lia. exact A.
+Qed.
+
+Lemma lfirst_none p : forall (l : list lthread) i, lfirst l i p = None -> forall th, In th l -> p th = false.
+Proof.
+  induction l as [|x l IH]; intros i H th Hin; [destruct Hin|]. cbn [lfirst] in H.
+  destruct (p x) eqn:Ep; [discriminate|]. destruct Hin as [<-|Hin]; [exact Ep|eapply IH; eauto].
 Qed.
 
 Lemma lrun_ok : forall fuel s ths sch, Inv s ths -> Inv (fst (lrun fuel s ths sch)) (snd (lrun fuel s ths sch)).
 Proof.
   induction fuel as [|f IH]; intros s ths sch H; cbn [lrun]; [exact H|].
-  destruct (lnext s ths sch) as [pick rest].
-  destruct (match pick with Some t => Some t | None => lfirst ths 0 (lenabled s) end) as [t|].
-  - assert (H1 := lperform_ok t s ths H). destruct (lperform t s ths) as [s1 ths1]. apply IH. exact H1.
-  - destruct (forallb lfin ths); [exact H|]. cbn [fst snd]. apply Inv_log. exact H.
+  destruct (lnext s ths sch) as [pick rest] eqn:En.
+  destruct pick as [t|].
+  - assert (H1 := lperform_ok t s ths H (lnext_enabled s ths sch t rest En)).
+    destruct (lperform t s ths) as [s1 ths1]. apply IH. exact H1.
+  - destruct (lfirst ths 0 (lenabled s)) as [t|] eqn:Ef.
+    + destruct (lfirst_some _ _ _ _ Ef) as [th [A [B _]]]. rewrite Nat.sub_0_r in A.
+      assert (H1 := lperform_ok t s ths H (fun th' E => ltac:(rewrite A in E; inversion E; subst; exact B))).
+      destruct (lperform t s ths) as [s1 ths1]. apply IH. exact H1.
+    + destruct (forallb lfin ths); [exact H|]. cbn [fst snd]. apply Inv_log. exact H.
 Qed.
 
 Lemma init_ok : Inv ls0 (lstart progs).
 Proof.
-  split.
-  - split; [reflexivity|]. split; [exact I|right; constructor].
+  split; [|split].
+  - split; [reflexivity|]. split; [exact I|]. split; [right; constructor|]. split; [reflexivity|]. split; [reflexivity|].
+    split; [right; intros z []|intros t p0 p1 vis []].
   - intros t th H. unfold lstart in H. rewrite nth_error_map in H.
     destruct (nth_error progs t) as [p|] eqn:Ep; [|discriminate]. inversion H; subst th. clear H.
     unfold th_ok. cbn [lfin lcode lcalls lloc wcl wci veff fst snd].
-    intros s1 [R1 [R2 _]]. exists []. split.
+    intros s1 [[R1 [R2 _]] R4]. split; [intro X; apply R4 in X; discriminate X|]. exists []. split.
     + unfold prog. cbn [app]. apply (nth_error_nth progs t []). exact Ep.
     + rewrite R1, R2. split; [constructor|reflexivity].
+  - intros u X. discriminate X.
 Qed.
 
 Theorem projection_every_schedule fuel sch :
   Inv (fst (lrun fuel ls0 (lstart progs) sch)) (snd (lrun fuel ls0 (lstart progs) sch)).
 Proof. apply lrun_ok. apply init_ok. Qed.
 
+(* ---------- no deadlock on the list's mutex ---------- *)
+(* in every reachable configuration: while some thread has not finished its program, some thread can take a step *)
+Theorem some_thread_can_run s ths :
+  Inv s ths -> forallb lfin ths = false -> exists t, lfirst ths 0 (lenabled s) = Some t.
+Proof.
+  intros [HG [HT HO]] Hf.
+  destruct (lfirst ths 0 (lenabled s)) as [t|] eqn:Ef; [eauto|exfalso].
+  assert (Hnone := lfirst_none _ _ _ Ef).
+  (* an unfinished thread *)
+  assert (Hu : exists th, In th ths /\ lfin th = false).
+  { clear -Hf. induction ths as [|x r IH]; cbn [forallb] in Hf; [discriminate|].
+    destruct (lfin x) eqn:E; [destruct (IH Hf) as [th [A B]]; exists th; split; [right; exact A|exact B]|].
+    exists x. split; [left; reflexivity|exact E]. }
+  destruct (lown s) as [u|] eqn:Eo.
+  - (* the owner has not finished, and its next instruction is not another JLock *)
+    destruct (HO u eq_refl) as [th [Eu Fu]].
+    assert (Hin : In th ths) by (eapply nth_error_In; eauto).
+    specialize (Hnone th Hin). unfold lenabled in Hnone. rewrite Fu in Hnone.
+    destruct (lcode th) as [|i rest] eqn:Ec; [discriminate|].
+    destruct i; try discriminate.
+    specialize (HT u th Eu). unfold th_ok in HT. rewrite Fu, Ec in HT. cbn [wcl wci] in HT.
+    destruct (HT s (Rely_refl u s)) as [X _]. exact (X Eo).
+  - destruct Hu as [th [Hin Fu]]. specialize (Hnone th Hin). unfold lenabled in Hnone. rewrite Fu, Eo in Hnone.
+    destruct (lcode th) as [|i rest]; [discriminate|]. destruct i; discriminate.
+Qed.
+
 End RUN.
 
 (* ---------- what the invariant says about a run ---------- *)
-Lemma run_secs_snoc : forall l g x,
-  run_secs g (l ++ [x]) =
-  (fst (sec_step (fst (run_secs g l)) x), snd (run_secs g l) ++ [snd (sec_step (fst (run_secs g l)) x)]).
-Proof.
-  induction l as [|y r IH]; intros g x; cbn [app run_secs].
-  - cbn [fst snd]. destruct (sec_step g x) as [g1 b]. reflexivity.
-  - destruct (sec_step g y) as [g1 b]. rewrite IH. destruct (run_secs g1 r) as [g2 bs]. reflexivity.
-Qed.
-
-(* the record, oldest first, is a run of sections from the empty list *)
-Lemma replay_is_run_secs : forall L,
-  results_ok L -> run_secs empty_group (rev (map esec L)) = (replay L, rev (map eres L)).
-Proof.
-  induction L as [|e r IH]; intros H; cbn [map rev replay]; [reflexivity|].
-  destruct H as [H1 H2]. rewrite run_secs_snoc, (IH H2). cbn [fst snd]. rewrite H1. reflexivity.
-Qed.
-
 Section HEADLINE.
 Variable progs : list (list lapi).
 Variable sch : list nat.
@@ -691,11 +1119,11 @@ Theorem every_execution_linearizes :
   GInv (lgrp s) (fst (spec_secs 0 [] (secs_of s))) /\ results_of s = snd (spec_secs 0 [] (secs_of s)).
 Proof.
   intros NW.
-  destruct (projection_every_schedule progs fuel sch) as [[G1 [G2 G3]] _]. fold s in G1, G2, G3.
+  destruct (projection_every_schedule progs fuel sch) as [[G1 [G2 [G3 _]]] _]. fold s in G1, G2, G3.
   destruct G3 as [G3|G3]; [contradiction|].
   assert (F : Forall sec_counter_ok (secs_of s)).
   { unfold secs_of. apply Forall_rev. apply Forall_forall. intros x Hx. apply in_map_iff in Hx. destruct Hx as [e [<- He]].
-    rewrite Forall_forall in G3. apply G3. exact He. }
+    unfold rec_ok in G3. rewrite Forall_forall in G3. apply G3. exact He. }
   destruct (sections_in_any_order_refine_list_spec (secs_of s) empty_group [] ginv_empty F) as [A B].
   rewrite machine_list_is_the_run_of_its_sections in A, B. cbn [fst snd] in A, B. cbn [empty_group heap length] in A, B.
   split; [exact A|exact B].
@@ -709,9 +1137,39 @@ Theorem sections_of_a_finished_thread_are_its_calls_in_program_order t th :
   rl t s = map eres (filter (fun e => negb (adds (esec e))) (tsecs t s)).
 Proof.
   intros Ht Hf.
-  destruct (projection_every_schedule progs fuel sch) as [_ HT]. fold s ths in HT.
-  specialize (HT t th Ht). unfold th_ok in HT. rewrite Hf in HT. destruct HT as [_ [d [A [B C]]]].
+  destruct (projection_every_schedule progs fuel sch) as [_ [HT _]]. fold s ths in HT.
+  specialize (HT t th Ht). unfold th_ok in HT. rewrite Hf in HT. destruct HT as [_ [_ [d [A [B C]]]]].
   rewrite app_nil_r in A. subst d. split; assumption.
+Qed.
+
+(* 3'. no deadlock: in the configuration a run ends in, either every thread has finished its program or some thread can
+       take a step — so the scheduler never finds all unfinished threads blocked on the list's mutex *)
+Theorem no_call_blocks_for_ever :
+  forallb lfin ths = true \/ exists t, lfirst ths 0 (lenabled s) = Some t.
+Proof.
+  destruct (forallb lfin ths) eqn:E; [left; reflexivity|right].
+  apply (some_thread_can_run progs s ths); [apply projection_every_schedule|exact E].
+Qed.
+
+(* 3''. lock discipline: no piece of code that touches the links (the sections of the adding / removing / querying calls,
+        the step node = node->next of a traversal) ever ran while its thread did not hold the list's mutex *)
+Theorem sections_run_under_the_mutex : lbad s = false.
+Proof.
+  destruct (projection_every_schedule progs fuel sch) as [[_ [_ [_ [G4 _]]]] _]. exact G4.
+Qed.
+
+(* 4. every traversal (invocation, enumeration) that has ended: with p0 the number of sections executed when it read head
+      and p1 the number executed when it ended, it visited no node twice, and it visited every node that was in the list
+      after the first p0 sections and that none of the sections p0+1 .. p1 removed *)
+Theorem finished_traversals_visit_what_stayed t p0 p1 vis :
+  ~ wrapped s -> In (t, p0, p1, vis) (ltravs s) ->
+  p0 <= p1 /\ p1 <= length (lsecs s) /\
+  NoDup vis /\
+  forall z, In z (ids_rec (old_rec (lsecs s) p0)) -> ~ In z (gone_rec (new_rec (old_rec (lsecs s) p1) p0)) -> In z vis.
+Proof.
+  intros NW Hin.
+  destruct (projection_every_schedule progs fuel sch) as [[_ [_ [_ [_ [_ [_ G7]]]]]] _]. fold s in G7.
+  destruct (G7 t p0 p1 vis Hin) as [A [B [C|[C D]]]]; [contradiction|]. repeat split; assumption.
 Qed.
 
 End HEADLINE.
@@ -750,4 +1208,29 @@ Example projection_example :
   results_of (fst r) = [true; true; true; true; true; false; false; false] /\
   fst (spec_secs 0 [] (secs_of (fst r))) = [1; 2; 3] /\
   snd (lc_run_case 400 proj_progs proj_sched) = [4; 2; 3].
+Proof. vm_compute. repeat split. Qed.
+
+(* the ghost flag is not constant: code marked `locked` that runs without the mutex sets it *)
+Example lock_discipline_flag_can_be_set :
+  lbad (fst (ladvance 5 0 ls0 (mkLT [do_sec true (fun _ _ => SRemove None)] [] ll0 false None))) = true /\
+  lbad (fst (ladvance 5 0 (ls_own ls0 (Some 0)) (mkLT [do_sec true (fun _ _ => SRemove None)] [] ll0 false None))) = false.
+Proof. vm_compute. split; reflexivity. Qed.
+
+(* a traversal during which another thread removes a callback ahead of the cursor and appends a new one: thread 0 appends
+   callbacks 1 2 3 (nodes 0 1 2) and invokes; thread 1 removes node 1 and appends callback 4 (node 3) after thread 0 has
+   looked at node 0.  The record says: head was read after 3 sections, the traversal ended after 5, it visited nodes 0
+   and 2; node 1 was removed in between (gone), node 3 was not in the list at p0 (and its counter 4 is newer than the
+   captured 3) *)
+Definition trav_progs : list (list lapi) := [[LAppend 1 0; LAppend 2 1; LAppend 3 2; LInvoke 7%Z]; [LRemove 1; LAppend 4 3]].
+Definition trav_sched : list nat := repeat 0 13 ++ repeat 1 8 ++ repeat 0 20.
+
+Example traversal_example :
+  let r := lrun 600 ls0 (lstart trav_progs) trav_sched in
+  let s := fst r in
+  forallb lfin (snd r) = true /\
+  ltravs s = [(0, 3, 5, [0; 2])] /\
+  ids_rec (old_rec (lsecs s) 3) = [0; 1; 2] /\
+  gone_rec (new_rec (old_rec (lsecs s) 5) 3) = [1] /\
+  secs_of s = [SBack 1 1; SBack 2 2; SBack 3 3; SRemove (Some 1); SBack 4 4] /\
+  filter (fun a => match a with LaCall _ _ _ => true | _ => false end) (rev (llog s)) = [LaCall 0 1 7; LaCall 0 3 7].
 Proof. vm_compute. repeat split. Qed.
